@@ -61,13 +61,34 @@ ConvertOK(r) ==
   /\ (Matching(r) # {} => (Len(LineToks(r)) >= 1 \/ Count(r, "notice") = 1))
   /\ (NulLines(r) = {} => (Count(r, "notice") = 0 /\ Len(LineToks(r)) = Cardinality(Matching(r))))
 
-\* summary modes (-c, -l) on an explicitly named / --binary file: a file with a matching line is not reported as empty
+\* summary modes on an explicitly named / --binary file: a file with a matching line is not reported as empty
+\* (count = -c, count0 = -c --include-zero, countm0 = --count-matches --include-zero, list = -l, fwm = --files-without-match)
+CountModes == {"count", "count0", "countm0"}
 SummaryOK(r) == /\ ~r.nulout
-                /\ (r.summary = "count" => (Matching(r) # {} => (Len(r.out) = 1 /\ r.out[1].k = "count" /\ r.out[1].i >= 1)))
+                /\ (r.summary \in CountModes => (Matching(r) # {} => (Len(r.out) = 1 /\ r.out[1].k = "count" /\ r.out[1].i >= 1)))
                 /\ (r.summary = "list" => (Matching(r) # {} => (Len(r.out) = 1 /\ r.out[1].k = "listed")))
-                /\ (Matching(r) = {} => \A j \in 1..Len(r.out) : r.out[j].k = "count" /\ r.out[j].i = 0)
+                /\ (r.summary = "fwm" => (Matching(r) # {} => r.out = <<>>))
+                /\ (Matching(r) = {} => /\ Len(r.out) <= 1
+                                        /\ \A j \in 1..Len(r.out) : \/ (r.out[j].k = "count" /\ r.out[j].i = 0)
+                                                                     \/ (r.summary = "fwm" /\ r.out[j].k = "listed"))
 
-Allowed(r) == IF r.summary # "none" THEN (IF r.mode = "binary" \/ r.naming = "explicit" THEN SummaryOK(r) ELSE ~r.nulout)
+\* summary modes on a file met during traversal, default mode.  r.noticed: the file holds a NUL in the portion every one of
+\* the modes that read a file to its end examines (the whole file through a reader, the leading 64 KiB of a memory map):
+\* the file is dropped, whatever the mode would have said about it.  -l stops at the first match, so nothing static is known
+\* about what it examined.  Without any NUL the summary is exact.
+One(k, i) == <<[k |-> k, i |-> i]>>
+ImplicitSummaryOK(r) ==
+  LET n == Cardinality(Matching(r)) IN
+  /\ ~r.nulout /\ Count(r, "other") = 0 /\ Len(r.out) <= 1
+  /\ (r.noticed /\ r.summary # "list") => r.out = <<>>
+  /\ NulLines(r) = {} =>
+       CASE r.summary = "count"   -> r.out = (IF n = 0 THEN <<>> ELSE One("count", n))
+         [] r.summary = "count0"  -> r.out = One("count", n)
+         [] r.summary = "countm0" -> Len(r.out) = 1 /\ r.out[1].k = "count" /\ r.out[1].i >= n /\ (n = 0 => r.out[1].i = 0)
+         [] r.summary = "list"    -> r.out = (IF n = 0 THEN <<>> ELSE One("listed", 0))
+         [] r.summary = "fwm"     -> r.out = (IF n = 0 THEN One("listed", 0) ELSE <<>>)
+
+Allowed(r) == IF r.summary # "none" THEN (IF r.mode = "binary" \/ r.naming = "explicit" THEN SummaryOK(r) ELSE ImplicitSummaryOK(r))
               ELSE IF r.mode = "text" THEN TextOK(r)
               ELSE IF r.mode = "binary" \/ r.naming = "explicit" THEN ConvertOK(r)
               ELSE ImplicitOK(r)
